@@ -233,6 +233,9 @@ func cmdCheck(args []string) int {
 	vacuity := map[string]int{}
 	var lines []string
 	for i, o := range obls {
+		if o.Dropped {
+			continue // an alternative of a lock inference that another alternative decided
+		}
 		isGuard := o.Kind == "reach" || o.Kind == "cover"
 		solverTime += o.Res.TimeS
 		if isGuard {
